@@ -5,6 +5,7 @@ pub mod pool;
 pub mod refm;
 pub mod run;
 pub mod sched;
+pub mod c09;
 pub mod c18;
 pub mod c_engine;
 pub mod c_fd;
@@ -23,6 +24,7 @@ pub fn dispatch(id: &str, ctx: &mut ev::Ctx) -> bool {
         "C06" => c_engine::run_c06(ctx),
         "C07" => c_engine::run_c07(ctx),
         "C08" => c_engine::run_c08(ctx),
+        "C09" => c09::run(ctx),
         "C16" => c_fd::run(ctx, "C16"),
         "C17" => c_fd::run(ctx, "C17"),
         "C18" => c18::run(ctx),
